@@ -1,0 +1,28 @@
+//go:build verif
+
+package mailbox
+
+import (
+	"github.com/lightninglabs/lightning-node-connect/hashmailrpc"
+)
+
+// This file is only compiled with the "verif" build tag. It exposes a few
+// unexported pieces to the external verification harness. It adds no
+// behaviour to regular builds.
+
+// VerifStripJSONWrapper exposes stripJSONWrapper.
+func VerifStripJSONWrapper(wrapped string) (string, error) {
+	return stripJSONWrapper(wrapped)
+}
+
+// VerifUnmarshalCipherBox runs the same unmarshalling step the websocket
+// transport applies to an unwrapped message.
+func VerifUnmarshalCipherBox(unwrapped []byte) ([]byte, error) {
+	mailboxMsg := &hashmailrpc.CipherBox{}
+	err := defaultMarshaler.Unmarshal(unwrapped, mailboxMsg)
+	if err != nil {
+		return nil, err
+	}
+
+	return mailboxMsg.Msg, nil
+}
